@@ -10,6 +10,39 @@ for l in open(os.path.join(VERIF, "properties.jsonl")):
 
 # id -> (category, technique, text, note, design_ref)
 CLAIMED = {
+    "C07": ("proof",
+            "Lean 4 theorems (strict-DER codec, canonical form, grinding loop, ECDSA / BIP340 correctness relative to an explicit "
+            "group-law hypothesis, RFC 6979) + model/implementation correspondence under both secp256k1 backends",
+            "Props/C07.lean proves for all inputs: the DER parser accepts exactly BIP66 (round trip, uniqueness of the encoding, "
+            "length bounds 70/71/72), Signature objects survive parse/serialise, the signer only returns in-range low-S pairs "
+            "(<= 71 bytes), the grinding loop makes <= 200 attempts and returns a <= 70-byte signature unless exhausted, signing is "
+            "a function of (key, message, extra data); relative to the hypothesis EcLaws (group of prime order n with the stated "
+            "coordinate laws - satisfied by a real 31-point curve in ToyCurve.lean, assumed for secp256k1): ECDSA sign-then-verify "
+            "and BIP340 sign-then-verify succeed at the key.py level and at the binding level (incl. grinding), every alteration of s "
+            "is rejected when only +-R reduce to r (flip_s_rejected); the nonce equals libsecp256k1's RFC 6979 variant for every input "
+            "and RFC 6979 proper for message values < n (partial: witness rfc6979_differs_ge_n, known finding C07-KF1). Failure under "
+            "EVERY other message/key is unforgeability and is not claimed: the check exercises all single-bit alterations of signature, "
+            "message, key and DER encoding under embit (both backends) and under independent Lean SEC 1 / BIP340 verifiers. Known "
+            "finding C07-KF2: for message values 0 mod n the negated key verifies (property of ECDSA, theorem neg_key_verifies_z0).",
+            "Trusted: Lean kernel + propext/Quot.sound/Classical.choice; EcLaws for secp256k1 (hypothesis); the Python harness; CPython, "
+            "hashlib, libsecp256k1. The Lean SHA-256/HMAC/secp256k1 used by the driver are validated against embit by every run.",
+            "§5 C07"),
+    "C08": ("proof",
+            "Lean 4 theorems (model of py_secp256k1 = contract of the wrapped libsecp256k1 function, all byte inputs) + three "
+            "correspondences (model vs py, contract vs ctypes, py vs ctypes) with a sacrificial worker process",
+            "Props/C08.lean proves `same bytes or both reject` for ALL byte-string arguments for 24 of the 26 shared binding functions: "
+            "seckey verify/negate/add/tweak_add, compact / DER / recoverable codecs, normalize, pubkey create/parse/serialize/add/"
+            "tweak_add unconditionally (n odd where the low-S rule is involved); pubkey negate, x-only conversion, keypair create, "
+            "schnorrsig sign/verify relative to EcLaws; ecdsa_verify unconditionally; parse_der: py accepts exactly what libsecp parses to a "
+            "verifiable pair, and verdict_agree: a DER encoding is accepted (parse+verify) under py iff under libsecp; ecdsa_sign partial "
+            "(away from r=0/s=0 on the first RFC 6979 candidate, probability ~2^-256; witness on a toy group). ecdsa_recover and "
+            "ecdsa_sign_recoverable are corresponded only (GOAL comments). The contract itself (my reading of secp256k1.h + the wrapper) "
+            "is validated differentially against the real library on every run, and py vs ctypes are compared directly on the boundary "
+            "pool; 14 genuine divergences (incl. three interpreter aborts) were found and repaired by fixes/01..14. Known finding C08-KF1: "
+            "in-place variants on an immutable bytes argument.",
+            "Trusted: Lean kernel + standard axioms; EcLaws (hypothesis, non-vacuous); libsecp256k1 is a black box (contract validated "
+            "differentially, ~3.8k cases quick / 55k thorough); the harness and its worker process; nonce_function arguments are not compared.",
+            "§5 C08"),
     "C11": ("proof",
             "Lean 4 theorems (codecs are exact inverses, decoders accept only valid encodings, GF(2) rank proof of 4-error "
             "detection) + model/implementation correspondence + constants re-extracted from the loaded module",
